@@ -384,4 +384,61 @@ def setstate {L} (rootNames : List String) (state : String × List (Step L)) :
     Option (String × List (Step L)) :=
   if rootNames.contains state.1 then some state else none
 
+/-! ### Path as a sequence: the operations on the flat tuple `path_t.__ops__` -/
+
+/-- an element of `__ops__`: the root object, an op character, or an argument -/
+inductive Cell (α : Type) where
+  | root (r : String)
+  | op (c : String)
+  | arg (a : α)
+  deriving DecidableEq, Repr
+
+/-- `(root, op, arg, op, arg, …)` -/
+def flatOf {α} (root : String) (steps : List (String × α)) : List (Cell α) :=
+  .root root :: steps.flatMap (fun s => [Cell.op s.1, Cell.arg s.2])
+
+/-- `xs[::2]` -/
+def everyOther {β} : List β → List β
+  | [] => []
+  | [x] => [x]
+  | x :: _ :: r => x :: everyOther r
+
+/-- `Path.__len__`: `(len(self.path_t.__ops__) - 1) // 2` -/
+def pLen {α} (ops : List (Cell α)) : Nat := (ops.length - 1) / 2
+
+/-- `Path.values`: `cur_t_path[2::2]` -/
+def pValues {α} (ops : List (Cell α)) : List (Cell α) := everyOther (ops.drop 2)
+
+/-- `Path.items`: `tuple(zip(cur_t_path[1::2], cur_t_path[2::2]))` -/
+def pItems {α} (ops : List (Cell α)) : List (Cell α × Cell α) :=
+  (everyOther (ops.drop 1)).zip (everyOther (ops.drop 2))
+
+/-- `(cur_t_path[0],) + sum(steps, ())` -/
+def rebuild {α} (ops : List (Cell α)) (steps : List (Cell α × Cell α)) : List (Cell α) :=
+  ops.take 1 ++ steps.flatMap (fun s => [s.1, s.2])
+
+/-- `Path.__getitem__(slice(a, b, c))`: the steps are sliced like a tuple; `none` is the
+    ValueError for a zero step -/
+def pGetSlice {α} (ops : List (Cell α)) (a b c : Option Int) : Option (List (Cell α)) :=
+  (pySlice (pItems ops) a b c).map (rebuild ops)
+
+/-- `Path.__getitem__(i)`: `(steps[i],)`; `none` is the IndexError -/
+def pGetIdx {α} (ops : List (Cell α)) (i : Int) : Option (List (Cell α)) :=
+  match pyIndexNat (pItems ops).length i with
+  | some j => (pItems ops)[j]?.map (fun st => rebuild ops [st])
+  | none => none
+
+/-- `Path.__eq__` against a Path or a TType: the ops tuples are equal -/
+def pEq {α} [DecidableEq α] (ops other : List (Cell α)) : Bool := decide (ops = other)
+
+/-- `Path.startswith`: `self.path_t.__ops__[:len(o_path)] == o_path` -/
+def pStartswith {α} [DecidableEq α] (ops other : List (Cell α)) : Bool :=
+  decide (ops.take other.length = other)
+
+/-- `Path.from_t`: an `S` root is replaced by `T` -/
+def pFromT {α} (ops : List (Cell α)) : List (Cell α) :=
+  match ops with
+  | .root "S" :: r => .root "T" :: r
+  | _ => ops
+
 end Glom.C18
